@@ -900,21 +900,50 @@ def o4_box(inp, mat):
     return cs
 
 
-def structural_linear_solve(ctx, eqn, iv):
-    """jx.do_linear_solve memoises on the identity of the matvec jaxpr object; helper and reference trace `solve` separately
-    (equal jaxprs, different objects), so the memo key used here is the printed jaxpr + the operand terms: the two sides share
-    the relational unknowns of equal linear systems"""
+def cramer_linear_solve(ctx, eqn, iv):
+    """custom_linear_solve (what jnp.linalg.solve and its transpose lower to) for 2 x 2 systems in closed form: the matrix is
+    read off the matvec jaxpr (applied to unit rows; checked on a third probe), x = adj(A) b / det A with det A recorded as a
+    symbolic denominator (assumed non-zero: the element is not degenerate).  jx.do_linear_solve's relational encoding
+    (fresh x with A x = b) gives helper and reference separate unknowns whenever their right-hand sides differ syntactically,
+    and equality then needs det A != 0 reasoning that z3 does not finish; closed forms keep both sides rational functions of the inputs"""
     cl = eqn.params['const_lengths']
     jp = eqn.params['jaxprs']
     nm = cl.matvec
-    b = iv[nm + cl.vecmat + cl.solve + cl.transpose_solve:]
-    key = ('cls_structural', str(jp.matvec.jaxpr)) + tuple(jx.term_key(x) for c_ in iv[:nm] for x in c_.ravel() if x is not jx.POISON) \
-        + tuple(jx.term_key(x) for bb in b for x in bb.ravel())
-    if key not in ctx.cache:
-        ctx.cache[key] = jx.do_linear_solve(ctx, eqn, iv)
-        ctx.keep = getattr(ctx, 'keep', [])
-        ctx.keep.append(iv)          # keep the operand terms alive: z3 AST ids are reused after garbage collection
-    return ctx.cache[key]
+    mv_consts = iv[:nm]
+    bs = iv[nm + cl.vecmat + cl.solve + cl.transpose_solve:]
+    if len(bs) != 1 or bs[0].ndim < 2 or bs[0].shape[-2] != 2:
+        return NotImplemented
+    b = bs[0]
+
+    def mv(x):
+        return jx.eval_jaxpr(ctx, jp.matvec.jaxpr, jp.matvec.consts, *mv_consts, x)[0]
+    cols = []
+    for i in range(2):
+        e = onp.zeros(b.shape)
+        e[..., i, :] = 1.0
+        cols.append(mv(jx.lift(e)))                    # A[..., :, i] replicated along the last axis
+    A = lambda r, c, idx: cols[c][idx + (r, 0)]
+    probe = onp.arange(1.0, b.size + 1.0).reshape(b.shape)
+    got = mv(jx.lift(probe))
+    out = onp.empty(b.shape, dtype=object)
+    for idx in (onp.ndindex(*b.shape[:-2]) if b.ndim > 2 else [()]):
+        a00, a01, a10, a11 = A(0, 0, idx), A(0, 1, idx), A(1, 0, idx), A(1, 1, idx)
+        for k in range(b.shape[-1]):
+            for r, (p, q) in enumerate(((a00, a01), (a10, a11))):
+                want = jx.s_add(jx.s_mul(p, probe[idx + (0, k)]), jx.s_mul(q, probe[idx + (1, k)]))
+                d = z3.simplify(sym.toz(want) - sym.toz(got[idx + (r, k)]))
+                if not (z3.is_rational_value(d) and d.numerator_as_long() == 0):
+                    raise jx.JXError('cramer_linear_solve: the matvec of this custom_linear_solve is not a column-wise 2x2 matrix product')
+        det = jx.s_sub(jx.s_mul(a00, a11), jx.s_mul(a01, a10))
+        if sym.isz(det):
+            ctx.denoms.append((ctx.guard(), det))
+        for k in range(b.shape[-1]):
+            b0, b1 = b[idx + (0, k)], b[idx + (1, k)]
+            n0 = jx.s_sub(jx.s_mul(a11, b0), jx.s_mul(a01, b1))
+            n1 = jx.s_sub(jx.s_mul(a00, b1), jx.s_mul(a10, b0))
+            out[idx + (0, k)] = sym.toz(n0) / sym.toz(det) if (sym.isz(n0) or sym.isz(det)) else n0 / det
+            out[idx + (1, k)] = sym.toz(n1) / sym.toz(det) if (sym.isz(n1) or sym.isz(det)) else n1 / det
+    return [out]
 
 
 def prove_pair(h, setup, pname, fn, cap=60):
@@ -948,7 +977,7 @@ def prove_pair(h, setup, pname, fn, cap=60):
             h.prove(name, [], Eq([0.0], [0.0]), inputs={}, concrete=concrete)
         return
     ctx = jx.Ctx()
-    ctx.hooks['custom_linear_solve'] = structural_linear_solve
+    ctx.hooks['custom_linear_solve'] = cramer_linear_solve
     c = Case(h, traced, dict(zip(O4_NAMES, example)), sampler=lambda r: o4_example(mat, r), label=name, validate=2, jit=False, ctx=ctx)
     a, b = c.out
     fa = [t for l in jax.tree_util.tree_leaves(a) for t in sym.flat(l)]
